@@ -64,3 +64,46 @@ C("C07", "TestC07", P(500), P(4000, 16, 1500),
   level_text="Generated histories against a reference model; every compaction must leave the full view unchanged (semantic tombstone rule). " + BOUNDED,
   level_note="Single writer, no I/O faults; trusts nothing of the stack code; the model is a pair of maps.",
   assumptions=[DOMAIN, "single process; transactions use update indices handed out by NextUpdateIndex()"])
+
+C("C13", "TestC13", P(1500), P(6000, 16, 1500),
+  rule="rapid-generated stacks built by 3..30 transactions (several log entries per ref, times 0..20, overwrites/deletions of existing entries, both message modes, optional intermediate compactions/expiries) "
+       "then CompactAll with an expiry configuration where each of Time/MinUpdateIndex/MaxUpdateIndex is unset, below, equal to, inside or above the data; "
+       "oracle = refs identical and logs == filter(model logs) with all fields equal, also through a fresh handle; "
+       "non-trivial = at least one entry removed, one kept and one entry exactly on a limit; distinct = hash of the case JSON",
+  technique="property-based testing (rapid): expiry result vs. a three-clause filter over the reference model",
+  level_text="Generated stacks and expiry configurations; the result must equal the model filter exactly and refs must be untouched. " + BOUNDED,
+  level_note="Single writer; the filter is the property's wording (older than the time limit, or update index outside the window; zero = unset).",
+  assumptions=[DOMAIN, "CompactAll(cfg) is called on a non-empty stack"])
+
+C("C09", "TestC09", P(800), P(5000, 16, 1500),
+  rule="rapid-generated sequential histories over 2..4 handles on one directory (Add, NewAddition+Add*+Commit, CompactAll, AutoCompact, Clean, reopen; auto-compaction per handle); "
+       "staleness is computed by the harness from Stack.String() vs tables.list; oracle per step: stale Add/NewAddition => ErrLockFailure and directory (file names + list bytes) unchanged; "
+       "after a failed Add UpToDate()==true, NextUpdateIndex() > every committed index, refreshed view == model, immediate retry == nil; stale CompactAll/AutoCompact/Clean change nothing; "
+       "fresh handles never fail; every handle always shows the committed state it last loaded; "
+       "non-trivial = at least one write attempted through a stale handle; distinct = hash of the case JSON",
+  technique="stateful property-based testing (rapid): multi-handle sequential histories vs. reference model and directory snapshots",
+  level_text="Generated sequential histories with several handles; every write through a stale handle must fail without side effects and the retry must succeed. " + BOUNDED,
+  level_note="Operations never overlap in time (interleavings are C04/C10); no I/O faults.",
+  assumptions=[DOMAIN, "handles act one after another (no overlap)"])
+
+C("C12", "TestC12", P(1500), P(8000, 16, 1500),
+  rule="rapid-generated histories of 3..25 transactions over 13 names rich in prefix relations plus 10 invalid names; each transaction 1..4 additions (value/peeled/symref) and deletions; "
+       "submitted through Add and through 2..3-table Additions (committed or abandoned), name check on (4/5) or off; "
+       "oracle from the property's wording: accepted iff every added name is valid and (live - deletions) + additions has no pair x, x/...; both directions; live set re-read and re-checked after every step; view == model; "
+       "non-trivial = a transaction with a deletion and an addition related by prefix, or a multi-table Addition; distinct = hash of the case JSON",
+  technique="stateful property-based testing (rapid): accept/reject decision and live set vs. a set-logic oracle",
+  level_text="Generated histories; soundness (no conflicting state) and completeness (no legal transaction refused) are both asserted at every step. " + BOUNDED,
+  level_note="Single writer; the oracle is 20 lines of set logic written from the property text.",
+  assumptions=["single process; one record per name per table"])
+
+C("C17", "TestC17", P(400, env={"VERIF_C17_MAXLEN": 4}), P(1500, 16, 2400, env={"VERIF_C17_MAXLEN": 6}),
+  rule="(a) segment chooser as a pure function: exhaustive over all size vectors of length 0..L over {1,2,3,4,7,8,9,15,16,17,100,1000} (L=4 quick, 6 thorough) plus rapid vectors up to length 40 with sizes up to 2^56; "
+       "validity predicate: nil iff no two adjacent sizes share floor(log2), else a range of >=2 tables inside the vector; "
+       "(b) every Add/AutoCompact changes the table list by at most one replacement of a contiguous run of >=2 tables by <=1 table; "
+       "(c) single-writer workloads of N identical-size transactions (N<=300 quick, 1500 thorough; payload shape and configuration drawn): depth <= 2*log2(n) after each Add (n>=4), EntriesWritten <= N*log2(N)*entries per transaction, asserted while all transaction tables had the same byte size; "
+       "non-trivial = vector with two adjacent sizes of one class / workload with N>=64; distinct = enumerated vectors are distinct by construction, generated cases by hash",
+  technique="bounded exhaustive enumeration + property-based testing (rapid): validity predicate for the chooser, bounds over generated workloads",
+  level_text="Exhaustive for short size vectors over representative classes; generated search for longer vectors and for workloads. " + BOUNDED,
+  level_note="The chooser is reached through an exported wrapper added to the scratch copy only; sizes >= 1 (a table is never empty).",
+  assumptions=["table sizes are >= 1 and their sum fits in 64 bits", "single writer, identical-size transaction tables (verified at run time; the bounds are not asserted otherwise)"],
+  exhaustive_part="all size vectors up to the stated length over the 12 representative sizes")
